@@ -45,7 +45,7 @@ func c01(tier string) []*explore.Scenario {
 		out = append(out, c01DirectSize(2, env.PipeOpts{Cap: 0, Serialize: ser}, 1, false, 70000))
 	}
 	out = append(out, c01Payloads(po), c01Payloads(env.PipeOpts{Cap: 0}))
-	out = append(out, c01Seq(po), c01FailedWrite(2))
+	out = append(out, c01Seq(po), c01FailedWrite(2), c01FailedWriteOlder("C01", 1))
 	for _, kind := range []string{"Unary", "Bidi"} {
 		out = append(out, c01ReentrantStats(kind, "nested-call"), c01ReentrantStats(kind, "waits-for-other-call"))
 	}
@@ -397,6 +397,55 @@ func c01Gated(topo string, k, pcap, bound int) *explore.Scenario {
 			for _, r := range rs {
 				checkUnary(r, "x"+r.Tag, fam)
 			}
+		},
+	}
+}
+
+// c01FailedWriteOlder: call A is inside the transport's Write (the transport is slow to refuse
+// it) while call B - started later - is in flight with a handler that takes its time; A's write
+// then fails; call C starts after that; then B's handler is released. B and C each get their
+// own reply; A fails. (An id handed out to a newer call must survive the failure of an older one.)
+func c01FailedWriteOlder(prop string, bound int) *explore.Scenario {
+	fam := prop + "/failed-write-older"
+	return &explore.Scenario{
+		Name: fmt.Sprintf("%s/failed-write-of-an-older-call/d=%d", prop, bound), Family: fam, Prop: prop, Bound: bound,
+		Run: func() {
+			w := env.NewWorld()
+			d := env.NewDirect(w, env.DirectOpts{Pipe: env.PipeOpts{Cap: 64}})
+			vsched.Settle()
+			idle := c14State(d)
+			gateA, release := make(chan struct{}), make(chan struct{})
+			d.Pipe.A.OnWriteCall = func(k int, rpc *env.Rpc) {
+				if b := rpc.GetBody(); b != nil && bytes.Contains(b.GetData(), []byte("a|x")) {
+					<-gateA
+					d.Pipe.A.FailNextWrites = 1
+				}
+			}
+			vsched.Explore(true)
+			a, b, c := w.Rec("a", "Unary"), w.Rec("b", "Unary"), w.Rec("c", "Unary")
+			w.Unaries["b"] = func(r *env.Rec, ctx context.Context, in string) (string, error) {
+				<-release
+				return "R:" + in, nil
+			}
+			vsched.GoNamed("caller-a", func() { w.CallUnary(d.CC, context.Background(), a, "x") })
+			vsched.Quiesce()
+			vsched.GoNamed("caller-b", func() { w.CallUnary(d.CC, context.Background(), b, "x") })
+			vsched.Quiesce()
+			close(gateA)
+			vsched.Quiesce()
+			vsched.GoNamed("caller-c", func() { w.CallUnary(d.CC, context.Background(), c, "y") })
+			vsched.Quiesce()
+			close(release)
+			vsched.Quiesce()
+			if !a.CDone || a.CErr == nil || a.HStarts != 0 {
+				vsched.Fail(fam+"|failed-call", "the call whose request write failed: done=%v err=%v handler runs=%d", a.CDone, a.CErr, a.HStarts)
+			}
+			checkUnary(b, "x", fam)
+			checkUnary(c, "y", fam)
+			if st := c14State(d); st != idle && a.CDone && b.CDone && c.CDone {
+				vsched.Fail(fam+"|not-idle:"+diffKey(idle, st), "after an older call's write failed with a newer call in flight, and all calls returned, the connection did not return to its idle state:\n%s", diffStates(idle, st))
+			}
+			finishDirect(d, w, true)
 		},
 	}
 }
